@@ -143,8 +143,33 @@ func errCode(err error) int {
 }
 
 // decodeSeq runs the real decoders in order; stops at the first error.
+// aliased is set by decodeSeq when a decoded bytes value changed after its input buffer
+// was overwritten (Buffer.Bytes promises a copy).
+var aliased bool
+
 func decodeSeq(kinds []int, str bool, in []byte) (status int, vals []val, rest []byte) {
-	b := &bin.Buffer{Buf: append([]byte{}, in...)}
+	orig := append([]byte{}, in...)
+	b := &bin.Buffer{Buf: orig}
+	aliased = false
+	defer func() {
+		if status != 0 {
+			return
+		}
+		rest = append([]byte{}, rest...)
+		snap := make([][]byte, len(vals))
+		for i, v := range vals {
+			snap[i] = append([]byte{}, v.B...)
+		}
+		for i := range orig {
+			orig[i] ^= 0xFF
+		}
+		for i, v := range vals {
+			if !bytes.Equal(v.B, snap[i]) {
+				aliased = true
+				vals[i].B = snap[i]
+			}
+		}
+	}()
 	p, _ := hx.Recover(func() {
 		for _, k := range kinds {
 			v, err := get(b, k, str)
@@ -228,6 +253,9 @@ func decodeCase(why string, kinds []int, str bool, in []byte, mustFail bool, emi
 	case status == 8:
 		c.Violate("decode-unknown-error", fmt.Sprintf("decoding %s as %v returned an unexpected error type", short(in), kinds), sh, ix, js)
 	case status == 0:
+		if aliased {
+			c.Violate("decoded-value-aliases-input", fmt.Sprintf("a bytes value decoded from %s as %v changed when the input buffer was overwritten afterwards (Buffer.Bytes must return a copy)", short(in), kinds), sh, ix, js)
+		}
 		consumed := len(in) - len(rest)
 		if mustFail {
 			c.Violate("short-or-malformed-accepted", fmt.Sprintf("decoding %s as %v succeeded but the input is short or malformed", short(in), kinds), sh, ix, js)
